@@ -23,15 +23,33 @@ def run(tier):
     acc = Acc()
     # ---- specific codes (also under a lowered ambient decimal precision: a host application that prints three significant figures has set it)
     import decimal
-    for ctx_prec in (None, 3, 2):
-     with decimal.localcontext() as _ctx:
-      if ctx_prec:
+    import logging, contextlib
+
+    @contextlib.contextmanager
+    def debug_logging(on):
+        # the host application has switched DEBUG logging on for everything (a guarded debug line is then executed)
+        root = logging.getLogger()
+        old, oldh = root.level, list(root.handlers)
+        if on:
+            root.setLevel(logging.DEBUG)
+            root.addHandler(logging.NullHandler())
+            for name in list(logging.root.manager.loggerDict):
+                if name.startswith('athlib'):
+                    logging.getLogger(name).setLevel(logging.NOTSET)
+        try:
+            yield
+        finally:
+            root.setLevel(old)
+            root.handlers[:] = oldh
+    for ctx_prec in (None, 3, 2, 'debug-logging'):
+     with decimal.localcontext() as _ctx, debug_logging(ctx_prec == 'debug-logging'):
+      if isinstance(ctx_prec, int) and ctx_prec:
           _ctx.prec = ctx_prec
       for ev in THROWS:
           for g in ('M', 'F', 'm', 'f', 'Male', 'Female', 'MALE', 'female', ' F', 'M ', 'Men', 'Women', 'W', 'X', ''):
               for label in (PRODUCED + OTHER if g in ('M', 'F') else PRODUCED[::2] + OTHER[:4]):
                   acc.n += 1
-                  case = dict(event=ev, gender=g, age_group=label, **({'decimal_context_prec': ctx_prec} if ctx_prec else {}))
+                  case = dict(event=ev, gender=g, age_group=label, **({'decimal_context_prec': ctx_prec} if isinstance(ctx_prec, int) and ctx_prec else ({'ambient': ctx_prec} if ctx_prec else {})))
                   produced = label in PRODUCED
                   try:
                       w = giw(ev, g, label)
@@ -187,6 +205,10 @@ def replay(rec):
     print(rec['sig'], '-', rec['msg'])
     if 'event' in c:
         import decimal
+        if c.get('ambient') == 'debug-logging':
+            import logging
+            logging.basicConfig(level=logging.DEBUG, handlers=[logging.NullHandler()])
+            print('logging: DEBUG enabled')
         if c.get('decimal_context_prec'):
             decimal.getcontext().prec = c['decimal_context_prec']
             print('decimal.getcontext().prec =', c['decimal_context_prec'])
